@@ -2010,8 +2010,13 @@ class Analyzer:
             st.env[i.res] = AggV([self.mk(st, w, exact, tz), BoolV(False)])
             return
         if hi < tlo or lo > thi:
-            # definitely overflows: value is the wrapped result (unused on the trap edge)
-            st.env[i.res] = AggV([self.fresh(st, w, T("ovf", kind, exact.key()), tlo, thi), BoolV(True)])
+            # definitely overflows: the value field is the wrapped result
+            Mw = 1 << w
+            k0, k1 = (lo - tlo) // Mw, (hi - tlo) // Mw
+            if k0 == k1:
+                st.env[i.res] = AggV([self.mk(st, w, exact.addc(-k0 * Mw), tz), BoolV(True)])
+            else:
+                st.env[i.res] = AggV([self.fresh(st, w, T("ovf", kind, exact.key()), tlo, thi), BoolV(True)])
             return
         cases = [[("lin", exact, tlo, thi)]]
         if lo < tlo:
